@@ -101,8 +101,9 @@ PSeq(s, acc) ==
   THEN (IF acc = <<>> THEN PFail ELSE [ok |-> TRUE, items |-> acc, item |-> <<>>, rest |-> s])
   ELSE LET t == PTerm(s, acc = <<>>) IN IF t.ok THEN PSeq(t.rest, Append(acc, t.item)) ELSE PFail
 
-PERR == <<"#err">>
-ParseIdeal(s) == LET r == PSeq(s, <<>>) IN IF r.ok /\ r.rest = <<>> THEN r.items ELSE PERR
+\* Parses(s): s is a formula of the grammar; ParseIdeal(s): its tree (<<>> when it is none)
+Parses(s)     == LET r == PSeq(s, <<>>) IN r.ok /\ r.rest = <<>>
+ParseIdeal(s) == LET r == PSeq(s, <<>>) IN IF r.ok /\ r.rest = <<>> THEN r.items ELSE <<>>
 
 ---------------------------------------------------------------------------
 \* structure predicates
@@ -145,7 +146,7 @@ Features(ast) ==
 \* the lemmas of the ideal (checked by TLC on every enumerated tree)
 Lemmas(ast) ==
   /\ WF(ast)
-  /\ ParseIdeal(PrintAst(ast)) = ast                                    \* printing is injective, the grammar recovers the tree
+  /\ Parses(PrintAst(ast)) /\ ParseIdeal(PrintAst(ast)) = ast                                    \* printing is injective, the grammar recovers the tree
   /\ Expand(ast) = BagOfFlat(Flatten(ast, 1))                        \* multipliers distribute down to the leaves
   /\ BSize(Expand(ast)) = AtomCount(ast, 1)
   /\ \A i \in 1..(Len(ast) - 1) :                                    \* addition of sub-formulas is bag union
@@ -157,7 +158,10 @@ Lemmas(ast) ==
 ---------------------------------------------------------------------------
 (***************************************************************************)
 (* Per-species data.  A species binding is a record                        *)
-(*    [el, A, ion, nuc]   A = 0: isotope not specified; nuc in "" p n e    *)
+(*    [el, A, ion, nuc, alias, aliasfull]                                  *)
+(*        A = 0: isotope not specified; nuc in "" p n e;                   *)
+(*        alias in "" D T: hydrogen-2/-3 written with its own symbol,      *)
+(*        aliasfull: the suffix repeats the mass number (D{2-1})           *)
 (* PT (module FormulaTables) is el -> [Z, iso: <<[A, ab]>>] with ab the     *)
 (* natural abundance in units of 1e-8.  Z, e are integers, N an integer or *)
 (* (natural mean) a term over the abundance table, masses always terms.    *)
@@ -173,7 +177,18 @@ AbundantDefined(el) == AbSum(el) > 0 /\ \E i \in 1..Len(Isos(el)) : IsMaxIdx(el,
 AbundantA(el) == Isos(el)[CHOOSE i \in 1..Len(Isos(el)) : IsMaxIdx(el, i)].A
 HasIso(el, A) == \E i \in 1..Len(Isos(el)) : Isos(el)[i].A = A
 
-SpValid(sp) == sp.nuc \in {"p", "n", "e"} \/ (sp.nuc = "" /\ sp.el \in DOMAIN PT /\ (sp.A = 0 \/ HasIso(sp.el, sp.A)))
+SpValid(sp) == \/ sp.nuc \in {"p", "n", "e"} /\ sp.alias = ""
+               \/ /\ sp.nuc = "" /\ sp.el \in DOMAIN PT /\ (sp.A = 0 \/ HasIso(sp.el, sp.A))
+                  /\ sp.alias \in {"", "D", "T"}
+                  /\ sp.alias = "D" => (sp.el = "H" /\ sp.A = 2)
+                  /\ sp.alias = "T" => (sp.el = "H" /\ sp.A = 3)
+\* feature predicates of a species binding (tags)
+SpFeatures(sp, natural) ==
+  IF sp.nuc # "" THEN {"nucleon"}
+  ELSE (IF sp.ion # 0 THEN {"charged"} ELSE {})
+       \cup (IF sp.A # 0 THEN {"isotope"} ELSE IF natural THEN {"natural_mean"} ELSE {"most_abundant"})
+       \cup (IF sp.alias # "" THEN {"named_isotope"} ELSE {})
+       \cup (IF sp.alias # "" /\ sp.ion # 0 /\ ~sp.aliasfull THEN {"named_isotope_charge_only"} ELSE {})
 \* "the abundance-weighted mean" / "the most abundant isotope" of an element without natural abundances
 \* (or with a tie) is not defined
 SpUnspecified(sp, natural) ==
